@@ -16,6 +16,10 @@ import (
 	"github.com/hashicorp/go-hclog"
 )
 
+// acceptRetryDelay is how long Run waits before it retries after a temporary
+// accept error
+const acceptRetryDelay = 50 * time.Millisecond
+
 // Server is an ldap server that you can add a mux (multiplexer) router to and
 // then run it to accept and process requests.
 type Server struct {
@@ -185,6 +189,13 @@ func (s *Server) Run(addr string, opt ...Option) error {
 			if strings.Contains(err.Error(), "use of closed network connection") {
 				s.logger.Debug("accept on closed conn")
 				return nil
+			}
+			if ne, ok := err.(net.Error); ok && ne.Temporary() { // nolint:staticcheck
+				// a transient failure (e.g. running out of file descriptors)
+				// must not take the server down: wait a little and retry
+				s.logger.Error("temporary error accepting conn; retrying", "op", op, "err", err)
+				time.Sleep(acceptRetryDelay)
+				continue
 			}
 			return fmt.Errorf("%s: error accepting conn: %w", op, err)
 		}
